@@ -642,6 +642,16 @@ func (s *Stream) ProcessSync(data map[string]any) (map[string]any, error) {
 func (s *Stream) enrichData(data map[string]any) (dataMap map[string]any, keep bool, err error) {
 	dataMap = data
 	if !s.hasJoin() {
+		if s.injectsIntoRow() {
+			// Analytic results, WHERE placeholders and computed group keys are
+			// written into the row downstream. Without a JOIN the row is the
+			// caller's own map, so work on a private copy: Emit/EmitSync must
+			// leave the caller's data untouched.
+			dataMap = make(map[string]any, len(data)+len(s.config.AnalyticFields)+len(s.config.WhereAnalyticCalls))
+			for k, v := range data {
+				dataMap[k] = v
+			}
+		}
 		return dataMap, true, nil
 	}
 	wm, k, jerr := s.enrichJoin(data)
@@ -652,6 +662,21 @@ func (s *Stream) enrichData(data map[string]any) (dataMap map[string]any, keep b
 		return dataMap, false, nil // INNER JOIN 无匹配：丢弃
 	}
 	return wm, true, nil
+}
+
+// injectsIntoRow reports whether this query writes derived values into the row
+// it processes (evalAnalytic: analytic aliases and WHERE placeholders;
+// injectGroupKeyExprs: function-expression GROUP BY keys).
+func (s *Stream) injectsIntoRow() bool {
+	if len(s.config.AnalyticFields) > 0 || len(s.config.WhereAnalyticCalls) > 0 {
+		return true
+	}
+	for _, gf := range s.config.GroupFields {
+		if strings.Contains(gf, "(") {
+			return true
+		}
+	}
+	return false
 }
 
 // applyWhereAndAnalytic 按 WHERE 是否引用分析函数决定求值序，并应用 WHERE 过滤。
